@@ -83,7 +83,7 @@ class State:
         s.id = new_id(); s.objs = {}; s.bases = []; s.pc = []; s.model = None; s.frames = []
         s.heap_next = 0x10000000; s.stack_next = 0x7f0000000000; s.steps = 0
         s.inputs = []  # (name, kind, vars)
-        s.notes = []; s.live_heap = 0; s.nundef = 0; s.trace = []; s.seq = []; s.retval = None; s.concr = {}; s.known = {}
+        s.notes = []; s.live_heap = 0; s.nundef = 0; s.trace = []; s.seq = []; s.retval = None; s.concr = {}; s.known = {}; s.track = None
 
     def fork(s):
         t = State.__new__(State)
@@ -95,7 +95,7 @@ class State:
             t.frames.append(g)
         t.heap_next = s.heap_next; t.stack_next = s.stack_next; t.steps = s.steps
         t.inputs = list(s.inputs); t.notes = list(s.notes); t.live_heap = s.live_heap; t.nundef = s.nundef
-        t.trace = list(s.trace); t.seq = list(s.seq); t.retval = None; t.concr = dict(s.concr); t.known = dict(s.known)
+        t.trace = list(s.trace); t.seq = list(s.seq); t.retval = None; t.concr = dict(s.concr); t.known = dict(s.known); t.track = None if s.track is None else dict(s.track, ranges=list(s.track['ranges']), private=set(s.track['private']), locks=set(s.track['locks']))
         return t
 
     def add_obj(s, o):
@@ -195,7 +195,7 @@ class Engine:
                 relocs = []
                 b = list(const_bytes(g['ty'], g['init'], relocs, 0))
                 if len(b) < sz: b += [0] * (sz - len(b))
-            o = Obj(a, sz, b, g['name'], 'const' if g['const'] else 'global', 0)
+            o = Obj(a, sz, b, g['name'], 'const' if g['const'] else ('tls' if g.get('tls') else 'global'), 0)
             s.gobjs.append(o)
             for off, v, ty in relocs:
                 val = s.constval(ty, v)
@@ -335,8 +335,9 @@ class Engine:
             p.skip_attrs(); t = p.type(); p.expect(','); pt = p.type(); a = O(pt, p.value(pt))
             return (op_load, dest, resolve_deep(t), a)
         if op == 'store':
+            atomic = p.peek()[1] == 'atomic'
             p.skip_attrs(); t = p.type(); v = O(t, p.value(t)); p.expect(','); pt = p.type(); a = O(pt, p.value(pt))
-            return (op_store, dest, resolve_deep(t), v, a)
+            return (op_store_atomic if atomic else op_store, dest, resolve_deep(t), v, a)
         if op == 'alloca':
             p.skip_attrs(); t = p.type(); cnt = (C, 1)
             if p.accept(','):
@@ -452,6 +453,7 @@ class Engine:
         """returns int or BV(8n)"""
         if type(a) is not int: return s.load_sym(st, a, n)
         o, off = s.resolve_addr(st, a, n, False)
+        if st.track is not None: s.on_access(st, o, off, n, False)
         b = o.b
         if n == 1:
             x = b[off]
@@ -486,6 +488,7 @@ class Engine:
     def store_bytes(s, st, a, n, v):
         if type(a) is not int: return s.store_sym(st, a, n, v)
         o, off = s.resolve_addr(st, a, n, True)
+        if st.track is not None: s.on_access(st, o, off, n, True)
         o = st.wobj(o)
         if type(v) is int:
             o.b[off:off + n] = list((v & m(8 * n)).to_bytes(n, 'little'))
@@ -847,6 +850,35 @@ class Engine:
             s.ifunc_cache[name] = impl
             s.funcs_seen.add(res)
         return s.ifunc_cache[name]
+
+    # ---- write-set / lockset tracking (C17): see verif_track_* in llsym_ext.py
+    track_log = None
+
+    def on_access(s, st, o, off, n, write):
+        t = st.track; mode = t['mode']
+        if o.kind == 'stack' or o.kind == 'const': return
+        if mode == 1:      # read-only operations on a shared document: no write to memory that existed before the region
+            if write and o.base in t['epoch'] and o.base not in t['private']:
+                raise Violation('race', 'C17: a read-only operation writes shared memory: %s[%d] offset %d (two concurrent readers would race)' % (o.name, o.size, off))
+            return
+        if mode == 3:      # independent documents: no write to a global object
+            if write and o.kind == 'global':
+                raise Violation('race', 'C17: operation on an independent document writes the global object %s (threads with their own documents would race)' % o.name)
+            return
+        if mode == 2:      # lock discipline on the shared pool metadata
+            a0 = o.base + off
+            hit = False
+            for (lo, hi) in t['ranges']:
+                if a0 < hi and a0 + n > lo: hit = True; break
+            if not hit: return
+            held = bool(t['locks'])
+            if s.track_log is None: s.track_log = dict(unlocked_reads=set(), locked_writes=set(), locked_accesses=0, unlocked_read_count=0)
+            if write and not held:
+                raise Violation('race', 'C17: pool metadata written without holding the allocator lock: %s offset %d' % (o.name, off))
+            key = ('%s@%#x' % (o.name, o.base), off)
+            if write: s.track_log['locked_writes'].add(key)
+            elif not held: s.track_log['unlocked_reads'].add(key); s.track_log['unlocked_read_count'] += 1
+            if held: s.track_log['locked_accesses'] += 1
 
     def fresh(s, st, tag, bits):
         st.nundef += 1
@@ -1428,6 +1460,14 @@ def op_store(E, st, fr, ins):
     E.store(st, addr, t, val)
 
 
+def op_store_atomic(E, st, fr, ins):
+    op_store(E, st, fr, ins)
+    if st.track is not None and st.track['mode'] == 2:
+        _, dest, t, v, a = ins
+        addr = fr.regs[a[1]] if a[0] == R else a[1]; val = fr.regs[v[1]] if v[0] == R else v[1]
+        if type(addr) is int and val == 0: st.track['locks'].discard(addr)      # spin-lock released
+
+
 def op_alloca(E, st, fr, ins):
     _, dest, sz, cnt = ins
     c = need_int(st, ev(fr, cnt))
@@ -1571,7 +1611,12 @@ def op_atomicrmw(E, st, fr, ins):
     addr = ev(fr, a); val = ev(fr, v)
     old = E.load(st, addr, t)
     n = t.n if isinstance(t, IntT) else 64
-    if aop == 'xchg': new = val
+    if aop == 'xchg':
+        new = val
+        if st.track is not None and st.track['mode'] == 2 and type(addr) is int:
+            ov = old if type(old) is int else need_int(st, old)
+            if val == 1 and ov == 0: st.track['locks'].add(addr)       # spin-lock acquired
+            old = ov
     elif aop in ('add', 'sub', 'and', 'or', 'xor'): new = sbin(aop, n, old, val)
     else: raise Inconclusive('atomicrmw ' + aop)
     E.store(st, addr, t, new)
